@@ -1126,10 +1126,334 @@ fn ml_prealloc(buf: &mut [u8], t: usize, k: usize) -> Res<()> {
     })
 }
 
+/// one instruction discriminator per const parameter: lets one account hold hundreds of lists
+pub struct MTN<const N: u64>;
+impl<const N: u64> SplDiscriminate for MTN<N> {
+    const SPL_DISCRIMINATOR: ArrayDiscriminator = ArrayDiscriminator::new(N.to_le_bytes());
+}
+macro_rules! with_mtn {
+    ($k:expr, $T:ident, $body:expr) => {
+        match $k {
+            0 => { type $T = MTN<{ 0x0500_0000_0000_0100 + 0 }>; $body }
+            1 => { type $T = MTN<{ 0x0500_0000_0000_0100 + 1 }>; $body }
+            2 => { type $T = MTN<{ 0x0500_0000_0000_0100 + 2 }>; $body }
+            3 => { type $T = MTN<{ 0x0500_0000_0000_0100 + 3 }>; $body }
+            4 => { type $T = MTN<{ 0x0500_0000_0000_0100 + 4 }>; $body }
+            5 => { type $T = MTN<{ 0x0500_0000_0000_0100 + 5 }>; $body }
+            6 => { type $T = MTN<{ 0x0500_0000_0000_0100 + 6 }>; $body }
+            7 => { type $T = MTN<{ 0x0500_0000_0000_0100 + 7 }>; $body }
+            8 => { type $T = MTN<{ 0x0500_0000_0000_0100 + 8 }>; $body }
+            9 => { type $T = MTN<{ 0x0500_0000_0000_0100 + 9 }>; $body }
+            10 => { type $T = MTN<{ 0x0500_0000_0000_0100 + 10 }>; $body }
+            11 => { type $T = MTN<{ 0x0500_0000_0000_0100 + 11 }>; $body }
+            12 => { type $T = MTN<{ 0x0500_0000_0000_0100 + 12 }>; $body }
+            13 => { type $T = MTN<{ 0x0500_0000_0000_0100 + 13 }>; $body }
+            14 => { type $T = MTN<{ 0x0500_0000_0000_0100 + 14 }>; $body }
+            15 => { type $T = MTN<{ 0x0500_0000_0000_0100 + 15 }>; $body }
+            16 => { type $T = MTN<{ 0x0500_0000_0000_0100 + 16 }>; $body }
+            17 => { type $T = MTN<{ 0x0500_0000_0000_0100 + 17 }>; $body }
+            18 => { type $T = MTN<{ 0x0500_0000_0000_0100 + 18 }>; $body }
+            19 => { type $T = MTN<{ 0x0500_0000_0000_0100 + 19 }>; $body }
+            20 => { type $T = MTN<{ 0x0500_0000_0000_0100 + 20 }>; $body }
+            21 => { type $T = MTN<{ 0x0500_0000_0000_0100 + 21 }>; $body }
+            22 => { type $T = MTN<{ 0x0500_0000_0000_0100 + 22 }>; $body }
+            23 => { type $T = MTN<{ 0x0500_0000_0000_0100 + 23 }>; $body }
+            24 => { type $T = MTN<{ 0x0500_0000_0000_0100 + 24 }>; $body }
+            25 => { type $T = MTN<{ 0x0500_0000_0000_0100 + 25 }>; $body }
+            26 => { type $T = MTN<{ 0x0500_0000_0000_0100 + 26 }>; $body }
+            27 => { type $T = MTN<{ 0x0500_0000_0000_0100 + 27 }>; $body }
+            28 => { type $T = MTN<{ 0x0500_0000_0000_0100 + 28 }>; $body }
+            29 => { type $T = MTN<{ 0x0500_0000_0000_0100 + 29 }>; $body }
+            30 => { type $T = MTN<{ 0x0500_0000_0000_0100 + 30 }>; $body }
+            31 => { type $T = MTN<{ 0x0500_0000_0000_0100 + 31 }>; $body }
+            32 => { type $T = MTN<{ 0x0500_0000_0000_0100 + 32 }>; $body }
+            33 => { type $T = MTN<{ 0x0500_0000_0000_0100 + 33 }>; $body }
+            34 => { type $T = MTN<{ 0x0500_0000_0000_0100 + 34 }>; $body }
+            35 => { type $T = MTN<{ 0x0500_0000_0000_0100 + 35 }>; $body }
+            36 => { type $T = MTN<{ 0x0500_0000_0000_0100 + 36 }>; $body }
+            37 => { type $T = MTN<{ 0x0500_0000_0000_0100 + 37 }>; $body }
+            38 => { type $T = MTN<{ 0x0500_0000_0000_0100 + 38 }>; $body }
+            39 => { type $T = MTN<{ 0x0500_0000_0000_0100 + 39 }>; $body }
+            40 => { type $T = MTN<{ 0x0500_0000_0000_0100 + 40 }>; $body }
+            41 => { type $T = MTN<{ 0x0500_0000_0000_0100 + 41 }>; $body }
+            42 => { type $T = MTN<{ 0x0500_0000_0000_0100 + 42 }>; $body }
+            43 => { type $T = MTN<{ 0x0500_0000_0000_0100 + 43 }>; $body }
+            44 => { type $T = MTN<{ 0x0500_0000_0000_0100 + 44 }>; $body }
+            45 => { type $T = MTN<{ 0x0500_0000_0000_0100 + 45 }>; $body }
+            46 => { type $T = MTN<{ 0x0500_0000_0000_0100 + 46 }>; $body }
+            47 => { type $T = MTN<{ 0x0500_0000_0000_0100 + 47 }>; $body }
+            48 => { type $T = MTN<{ 0x0500_0000_0000_0100 + 48 }>; $body }
+            49 => { type $T = MTN<{ 0x0500_0000_0000_0100 + 49 }>; $body }
+            50 => { type $T = MTN<{ 0x0500_0000_0000_0100 + 50 }>; $body }
+            51 => { type $T = MTN<{ 0x0500_0000_0000_0100 + 51 }>; $body }
+            52 => { type $T = MTN<{ 0x0500_0000_0000_0100 + 52 }>; $body }
+            53 => { type $T = MTN<{ 0x0500_0000_0000_0100 + 53 }>; $body }
+            54 => { type $T = MTN<{ 0x0500_0000_0000_0100 + 54 }>; $body }
+            55 => { type $T = MTN<{ 0x0500_0000_0000_0100 + 55 }>; $body }
+            56 => { type $T = MTN<{ 0x0500_0000_0000_0100 + 56 }>; $body }
+            57 => { type $T = MTN<{ 0x0500_0000_0000_0100 + 57 }>; $body }
+            58 => { type $T = MTN<{ 0x0500_0000_0000_0100 + 58 }>; $body }
+            59 => { type $T = MTN<{ 0x0500_0000_0000_0100 + 59 }>; $body }
+            60 => { type $T = MTN<{ 0x0500_0000_0000_0100 + 60 }>; $body }
+            61 => { type $T = MTN<{ 0x0500_0000_0000_0100 + 61 }>; $body }
+            62 => { type $T = MTN<{ 0x0500_0000_0000_0100 + 62 }>; $body }
+            63 => { type $T = MTN<{ 0x0500_0000_0000_0100 + 63 }>; $body }
+            64 => { type $T = MTN<{ 0x0500_0000_0000_0100 + 64 }>; $body }
+            65 => { type $T = MTN<{ 0x0500_0000_0000_0100 + 65 }>; $body }
+            66 => { type $T = MTN<{ 0x0500_0000_0000_0100 + 66 }>; $body }
+            67 => { type $T = MTN<{ 0x0500_0000_0000_0100 + 67 }>; $body }
+            68 => { type $T = MTN<{ 0x0500_0000_0000_0100 + 68 }>; $body }
+            69 => { type $T = MTN<{ 0x0500_0000_0000_0100 + 69 }>; $body }
+            70 => { type $T = MTN<{ 0x0500_0000_0000_0100 + 70 }>; $body }
+            71 => { type $T = MTN<{ 0x0500_0000_0000_0100 + 71 }>; $body }
+            72 => { type $T = MTN<{ 0x0500_0000_0000_0100 + 72 }>; $body }
+            73 => { type $T = MTN<{ 0x0500_0000_0000_0100 + 73 }>; $body }
+            74 => { type $T = MTN<{ 0x0500_0000_0000_0100 + 74 }>; $body }
+            75 => { type $T = MTN<{ 0x0500_0000_0000_0100 + 75 }>; $body }
+            76 => { type $T = MTN<{ 0x0500_0000_0000_0100 + 76 }>; $body }
+            77 => { type $T = MTN<{ 0x0500_0000_0000_0100 + 77 }>; $body }
+            78 => { type $T = MTN<{ 0x0500_0000_0000_0100 + 78 }>; $body }
+            79 => { type $T = MTN<{ 0x0500_0000_0000_0100 + 79 }>; $body }
+            80 => { type $T = MTN<{ 0x0500_0000_0000_0100 + 80 }>; $body }
+            81 => { type $T = MTN<{ 0x0500_0000_0000_0100 + 81 }>; $body }
+            82 => { type $T = MTN<{ 0x0500_0000_0000_0100 + 82 }>; $body }
+            83 => { type $T = MTN<{ 0x0500_0000_0000_0100 + 83 }>; $body }
+            84 => { type $T = MTN<{ 0x0500_0000_0000_0100 + 84 }>; $body }
+            85 => { type $T = MTN<{ 0x0500_0000_0000_0100 + 85 }>; $body }
+            86 => { type $T = MTN<{ 0x0500_0000_0000_0100 + 86 }>; $body }
+            87 => { type $T = MTN<{ 0x0500_0000_0000_0100 + 87 }>; $body }
+            88 => { type $T = MTN<{ 0x0500_0000_0000_0100 + 88 }>; $body }
+            89 => { type $T = MTN<{ 0x0500_0000_0000_0100 + 89 }>; $body }
+            90 => { type $T = MTN<{ 0x0500_0000_0000_0100 + 90 }>; $body }
+            91 => { type $T = MTN<{ 0x0500_0000_0000_0100 + 91 }>; $body }
+            92 => { type $T = MTN<{ 0x0500_0000_0000_0100 + 92 }>; $body }
+            93 => { type $T = MTN<{ 0x0500_0000_0000_0100 + 93 }>; $body }
+            94 => { type $T = MTN<{ 0x0500_0000_0000_0100 + 94 }>; $body }
+            95 => { type $T = MTN<{ 0x0500_0000_0000_0100 + 95 }>; $body }
+            96 => { type $T = MTN<{ 0x0500_0000_0000_0100 + 96 }>; $body }
+            97 => { type $T = MTN<{ 0x0500_0000_0000_0100 + 97 }>; $body }
+            98 => { type $T = MTN<{ 0x0500_0000_0000_0100 + 98 }>; $body }
+            99 => { type $T = MTN<{ 0x0500_0000_0000_0100 + 99 }>; $body }
+            100 => { type $T = MTN<{ 0x0500_0000_0000_0100 + 100 }>; $body }
+            101 => { type $T = MTN<{ 0x0500_0000_0000_0100 + 101 }>; $body }
+            102 => { type $T = MTN<{ 0x0500_0000_0000_0100 + 102 }>; $body }
+            103 => { type $T = MTN<{ 0x0500_0000_0000_0100 + 103 }>; $body }
+            104 => { type $T = MTN<{ 0x0500_0000_0000_0100 + 104 }>; $body }
+            105 => { type $T = MTN<{ 0x0500_0000_0000_0100 + 105 }>; $body }
+            106 => { type $T = MTN<{ 0x0500_0000_0000_0100 + 106 }>; $body }
+            107 => { type $T = MTN<{ 0x0500_0000_0000_0100 + 107 }>; $body }
+            108 => { type $T = MTN<{ 0x0500_0000_0000_0100 + 108 }>; $body }
+            109 => { type $T = MTN<{ 0x0500_0000_0000_0100 + 109 }>; $body }
+            110 => { type $T = MTN<{ 0x0500_0000_0000_0100 + 110 }>; $body }
+            111 => { type $T = MTN<{ 0x0500_0000_0000_0100 + 111 }>; $body }
+            112 => { type $T = MTN<{ 0x0500_0000_0000_0100 + 112 }>; $body }
+            113 => { type $T = MTN<{ 0x0500_0000_0000_0100 + 113 }>; $body }
+            114 => { type $T = MTN<{ 0x0500_0000_0000_0100 + 114 }>; $body }
+            115 => { type $T = MTN<{ 0x0500_0000_0000_0100 + 115 }>; $body }
+            116 => { type $T = MTN<{ 0x0500_0000_0000_0100 + 116 }>; $body }
+            117 => { type $T = MTN<{ 0x0500_0000_0000_0100 + 117 }>; $body }
+            118 => { type $T = MTN<{ 0x0500_0000_0000_0100 + 118 }>; $body }
+            119 => { type $T = MTN<{ 0x0500_0000_0000_0100 + 119 }>; $body }
+            120 => { type $T = MTN<{ 0x0500_0000_0000_0100 + 120 }>; $body }
+            121 => { type $T = MTN<{ 0x0500_0000_0000_0100 + 121 }>; $body }
+            122 => { type $T = MTN<{ 0x0500_0000_0000_0100 + 122 }>; $body }
+            123 => { type $T = MTN<{ 0x0500_0000_0000_0100 + 123 }>; $body }
+            124 => { type $T = MTN<{ 0x0500_0000_0000_0100 + 124 }>; $body }
+            125 => { type $T = MTN<{ 0x0500_0000_0000_0100 + 125 }>; $body }
+            126 => { type $T = MTN<{ 0x0500_0000_0000_0100 + 126 }>; $body }
+            127 => { type $T = MTN<{ 0x0500_0000_0000_0100 + 127 }>; $body }
+            128 => { type $T = MTN<{ 0x0500_0000_0000_0100 + 128 }>; $body }
+            129 => { type $T = MTN<{ 0x0500_0000_0000_0100 + 129 }>; $body }
+            130 => { type $T = MTN<{ 0x0500_0000_0000_0100 + 130 }>; $body }
+            131 => { type $T = MTN<{ 0x0500_0000_0000_0100 + 131 }>; $body }
+            132 => { type $T = MTN<{ 0x0500_0000_0000_0100 + 132 }>; $body }
+            133 => { type $T = MTN<{ 0x0500_0000_0000_0100 + 133 }>; $body }
+            134 => { type $T = MTN<{ 0x0500_0000_0000_0100 + 134 }>; $body }
+            135 => { type $T = MTN<{ 0x0500_0000_0000_0100 + 135 }>; $body }
+            136 => { type $T = MTN<{ 0x0500_0000_0000_0100 + 136 }>; $body }
+            137 => { type $T = MTN<{ 0x0500_0000_0000_0100 + 137 }>; $body }
+            138 => { type $T = MTN<{ 0x0500_0000_0000_0100 + 138 }>; $body }
+            139 => { type $T = MTN<{ 0x0500_0000_0000_0100 + 139 }>; $body }
+            140 => { type $T = MTN<{ 0x0500_0000_0000_0100 + 140 }>; $body }
+            141 => { type $T = MTN<{ 0x0500_0000_0000_0100 + 141 }>; $body }
+            142 => { type $T = MTN<{ 0x0500_0000_0000_0100 + 142 }>; $body }
+            143 => { type $T = MTN<{ 0x0500_0000_0000_0100 + 143 }>; $body }
+            144 => { type $T = MTN<{ 0x0500_0000_0000_0100 + 144 }>; $body }
+            145 => { type $T = MTN<{ 0x0500_0000_0000_0100 + 145 }>; $body }
+            146 => { type $T = MTN<{ 0x0500_0000_0000_0100 + 146 }>; $body }
+            147 => { type $T = MTN<{ 0x0500_0000_0000_0100 + 147 }>; $body }
+            148 => { type $T = MTN<{ 0x0500_0000_0000_0100 + 148 }>; $body }
+            149 => { type $T = MTN<{ 0x0500_0000_0000_0100 + 149 }>; $body }
+            150 => { type $T = MTN<{ 0x0500_0000_0000_0100 + 150 }>; $body }
+            151 => { type $T = MTN<{ 0x0500_0000_0000_0100 + 151 }>; $body }
+            152 => { type $T = MTN<{ 0x0500_0000_0000_0100 + 152 }>; $body }
+            153 => { type $T = MTN<{ 0x0500_0000_0000_0100 + 153 }>; $body }
+            154 => { type $T = MTN<{ 0x0500_0000_0000_0100 + 154 }>; $body }
+            155 => { type $T = MTN<{ 0x0500_0000_0000_0100 + 155 }>; $body }
+            156 => { type $T = MTN<{ 0x0500_0000_0000_0100 + 156 }>; $body }
+            157 => { type $T = MTN<{ 0x0500_0000_0000_0100 + 157 }>; $body }
+            158 => { type $T = MTN<{ 0x0500_0000_0000_0100 + 158 }>; $body }
+            159 => { type $T = MTN<{ 0x0500_0000_0000_0100 + 159 }>; $body }
+            160 => { type $T = MTN<{ 0x0500_0000_0000_0100 + 160 }>; $body }
+            161 => { type $T = MTN<{ 0x0500_0000_0000_0100 + 161 }>; $body }
+            162 => { type $T = MTN<{ 0x0500_0000_0000_0100 + 162 }>; $body }
+            163 => { type $T = MTN<{ 0x0500_0000_0000_0100 + 163 }>; $body }
+            164 => { type $T = MTN<{ 0x0500_0000_0000_0100 + 164 }>; $body }
+            165 => { type $T = MTN<{ 0x0500_0000_0000_0100 + 165 }>; $body }
+            166 => { type $T = MTN<{ 0x0500_0000_0000_0100 + 166 }>; $body }
+            167 => { type $T = MTN<{ 0x0500_0000_0000_0100 + 167 }>; $body }
+            168 => { type $T = MTN<{ 0x0500_0000_0000_0100 + 168 }>; $body }
+            169 => { type $T = MTN<{ 0x0500_0000_0000_0100 + 169 }>; $body }
+            170 => { type $T = MTN<{ 0x0500_0000_0000_0100 + 170 }>; $body }
+            171 => { type $T = MTN<{ 0x0500_0000_0000_0100 + 171 }>; $body }
+            172 => { type $T = MTN<{ 0x0500_0000_0000_0100 + 172 }>; $body }
+            173 => { type $T = MTN<{ 0x0500_0000_0000_0100 + 173 }>; $body }
+            174 => { type $T = MTN<{ 0x0500_0000_0000_0100 + 174 }>; $body }
+            175 => { type $T = MTN<{ 0x0500_0000_0000_0100 + 175 }>; $body }
+            176 => { type $T = MTN<{ 0x0500_0000_0000_0100 + 176 }>; $body }
+            177 => { type $T = MTN<{ 0x0500_0000_0000_0100 + 177 }>; $body }
+            178 => { type $T = MTN<{ 0x0500_0000_0000_0100 + 178 }>; $body }
+            179 => { type $T = MTN<{ 0x0500_0000_0000_0100 + 179 }>; $body }
+            180 => { type $T = MTN<{ 0x0500_0000_0000_0100 + 180 }>; $body }
+            181 => { type $T = MTN<{ 0x0500_0000_0000_0100 + 181 }>; $body }
+            182 => { type $T = MTN<{ 0x0500_0000_0000_0100 + 182 }>; $body }
+            183 => { type $T = MTN<{ 0x0500_0000_0000_0100 + 183 }>; $body }
+            184 => { type $T = MTN<{ 0x0500_0000_0000_0100 + 184 }>; $body }
+            185 => { type $T = MTN<{ 0x0500_0000_0000_0100 + 185 }>; $body }
+            186 => { type $T = MTN<{ 0x0500_0000_0000_0100 + 186 }>; $body }
+            187 => { type $T = MTN<{ 0x0500_0000_0000_0100 + 187 }>; $body }
+            188 => { type $T = MTN<{ 0x0500_0000_0000_0100 + 188 }>; $body }
+            189 => { type $T = MTN<{ 0x0500_0000_0000_0100 + 189 }>; $body }
+            190 => { type $T = MTN<{ 0x0500_0000_0000_0100 + 190 }>; $body }
+            191 => { type $T = MTN<{ 0x0500_0000_0000_0100 + 191 }>; $body }
+            192 => { type $T = MTN<{ 0x0500_0000_0000_0100 + 192 }>; $body }
+            193 => { type $T = MTN<{ 0x0500_0000_0000_0100 + 193 }>; $body }
+            194 => { type $T = MTN<{ 0x0500_0000_0000_0100 + 194 }>; $body }
+            195 => { type $T = MTN<{ 0x0500_0000_0000_0100 + 195 }>; $body }
+            196 => { type $T = MTN<{ 0x0500_0000_0000_0100 + 196 }>; $body }
+            197 => { type $T = MTN<{ 0x0500_0000_0000_0100 + 197 }>; $body }
+            198 => { type $T = MTN<{ 0x0500_0000_0000_0100 + 198 }>; $body }
+            199 => { type $T = MTN<{ 0x0500_0000_0000_0100 + 199 }>; $body }
+            _ => unreachable!(),
+        }
+    };
+}
+/// an instruction type that (legally) overrides `SPL_DISCRIMINATOR_SLICE`: its list is still
+/// stored under `SPL_DISCRIMINATOR`
+pub struct MTOdd;
+impl SplDiscriminate for MTOdd {
+    const SPL_DISCRIMINATOR: ArrayDiscriminator = ArrayDiscriminator::new([0x55, 1, 2, 3, 4, 5, 6, 0x55]);
+    const SPL_DISCRIMINATOR_SLICE: &'static [u8] = &[0x77, 0x76, 0x75, 0x74, 0x73, 0x72, 0x71, 0x70];
+}
+fn mtn_init(buf: &mut [u8], k: usize, ms: &[ExtraAccountMeta]) -> Res<()> {
+    catch(|| with_mtn!(k, T, ExtraAccountMetaList::init::<T>(buf, ms)))
+}
+fn mtn_update(buf: &mut [u8], k: usize, ms: &[ExtraAccountMeta]) -> Res<()> {
+    catch(|| with_mtn!(k, T, ExtraAccountMetaList::update::<T>(buf, ms)))
+}
+fn mtn_reload(buf: &[u8], k: usize) -> Res<Vec<ExtraAccountMeta>> {
+    catch(|| -> Result<Vec<ExtraAccountMeta>, ProgramError> {
+        let st = TlvStateBorrowed::unpack(buf)?;
+        let v = with_mtn!(k, T, ExtraAccountMetaList::unpack_with_tlv_state::<T>(&st))?;
+        Ok(v.iter().cloned().collect())
+    })
+}
+/// more than 128 / 160 / 200 instructions' lists in one account of exactly the advertised total size
+fn many_instructions_scenario(rep: &mut Report, rng: &mut Rng) {
+    let count = *rng.pick(&[129usize, 136, 160, 200]);
+    let lists: Vec<Vec<ExtraAccountMeta>> = (0..count).map(|_| (0..rng.below(3)).map(|_| rand_extra(rng)).collect()).collect();
+    let total: usize = lists.iter().map(|l| ExtraAccountMetaList::size_of(l.len()).unwrap()).sum();
+    let mut buf = vec![0u8; total];
+    rep.count("instructions:>128-in-one-account");
+    let mut order: Vec<usize> = (0..count).collect();
+    if rng.chance(1, 2) {
+        for i in (1..count).rev() { let j = rng.below(i as u64 + 1) as usize; order.swap(i, j); }
+    }
+    let check = |rep: &mut Report, buf: &[u8], lists: &[Vec<ExtraAccountMeta>], present: &dyn Fn(usize) -> bool, stage: &str| {
+        for k in 0..count {
+            let g = mtn_reload(buf, k);
+            rep.monitor_runs += 1;
+            let ok = match (&g, present(k)) { (Res::Ok(v), true) => *v == lists[k], (Res::Err(_), false) => true, _ => false };
+            if !ok {
+                rep.violate("reload-mismatch", "with more than 128 instructions' lists in one account, a stored list does not read back exactly (or a missing one read)",
+                    serde_json::json!({"stage": stage, "instructions": count, "instruction_index": k, "observed": format!("{:?}", g.clone().map(|v| v.len())), "expected_len": if present(k) { Some(lists[k].len()) } else { None }}).to_string());
+                return;
+            }
+        }
+    };
+    for (pos, &k) in order.iter().enumerate() {
+        let r = mtn_init(&mut buf, k, &lists[k]);
+        if r != Res::Ok(()) {
+            rep.violate("init-result", "init must succeed while the account has room for the list (many instructions in one account)",
+                serde_json::json!({"instructions": count, "position": pos, "observed": format!("{:?}", r)}).to_string());
+            return;
+        }
+        if pos == 127 || pos == 128 || pos == 129 {
+            let done: std::collections::HashSet<usize> = order[..=pos].iter().copied().collect();
+            check(rep, &buf, &lists, &|k| done.contains(&k), "during");
+        }
+    }
+    check(rep, &buf, &lists, &|_| true, "all-initialised");
+    // the account is exactly full: one more instruction's list does not fit and changes nothing
+    let before = buf.clone();
+    let r = catch(|| ExtraAccountMetaList::init::<MT0>(&mut buf, &[]));
+    if !r.is_err() || buf != before {
+        rep.violate("init-result", "init into an exactly full account must fail and change nothing", serde_json::json!({"instructions": count, "observed": format!("{:?}", r)}).to_string());
+    }
+    // same-size update of one list in the middle: the others keep their contents
+    let k = order[rng.below(count as u64) as usize];
+    let mut lists2 = lists.clone();
+    lists2[k] = (0..lists[k].len()).map(|_| rand_extra(rng)).collect();
+    let r = mtn_update(&mut buf, k, &lists2[k]);
+    if r != Res::Ok(()) {
+        rep.violate("update-result", "a same-size update must succeed (many instructions in one account)", serde_json::json!({"instructions": count, "observed": format!("{:?}", r)}).to_string());
+        return;
+    }
+    check(rep, &buf, &lists2, &|_| true, "after-update");
+    // shrink one list to empty: everything else still reads back
+    let k2 = order[rng.below(count as u64) as usize];
+    lists2[k2] = vec![];
+    let r = mtn_update(&mut buf, k2, &[]);
+    if r != Res::Ok(()) {
+        rep.violate("update-result", "an update to a shorter list must succeed (many instructions in one account)", serde_json::json!({"instructions": count, "observed": format!("{:?}", r)}).to_string());
+        return;
+    }
+    check(rep, &buf, &lists2, &|_| true, "after-shrink");
+}
+/// a list stored for an instruction type that overrides SPL_DISCRIMINATOR_SLICE
+fn odd_slice_list_scenario(rep: &mut Report, rng: &mut Rng) {
+    let ms: Vec<ExtraAccountMeta> = (0..rng.below(4)).map(|_| rand_extra(rng)).collect();
+    let ms2: Vec<ExtraAccountMeta> = (0..rng.below(4)).map(|_| rand_extra(rng)).collect();
+    let other: Vec<ExtraAccountMeta> = (0..rng.below(3)).map(|_| rand_extra(rng)).collect();
+    let sz = 16 + 35 * ms.len().max(ms2.len()) + 16 + 35 * other.len();
+    let mut buf = vec![0u8; sz];
+    rep.count("instruction:overridden-slice-constant");
+    rep.monitor_runs += 1;
+    let first_other = rng.chance(1, 2);
+    let r = catch(|| -> Result<(Vec<ExtraAccountMeta>, Vec<ExtraAccountMeta>, Vec<ExtraAccountMeta>), ProgramError> {
+        if first_other { ExtraAccountMetaList::init::<MT2>(&mut buf, &other)?; }
+        ExtraAccountMetaList::init::<MTOdd>(&mut buf, &ms)?;
+        if !first_other { ExtraAccountMetaList::init::<MT2>(&mut buf, &other)?; }
+        let a: Vec<ExtraAccountMeta> = { let st = TlvStateBorrowed::unpack(&buf)?; ExtraAccountMetaList::unpack_with_tlv_state::<MTOdd>(&st)?.iter().cloned().collect() };
+        ExtraAccountMetaList::update::<MTOdd>(&mut buf, &ms2)?;
+        let st = TlvStateBorrowed::unpack(&buf)?;
+        let b: Vec<ExtraAccountMeta> = ExtraAccountMetaList::unpack_with_tlv_state::<MTOdd>(&st)?.iter().cloned().collect();
+        let c: Vec<ExtraAccountMeta> = ExtraAccountMetaList::unpack_with_tlv_state::<MT2>(&st)?.iter().cloned().collect();
+        Ok((a, b, c))
+    });
+    let tag_at = |off: usize| buf.get(off..off + 8).map(|x| x.to_vec());
+    let odd_off = if first_other { 16 + 35 * other.len() } else { 0 };
+    let ok = r == Res::Ok((ms.clone(), ms2.clone(), other.clone())) && tag_at(odd_off) == Some(vec![0x55, 1, 2, 3, 4, 5, 6, 0x55]);
+    if !ok {
+        rep.violate("override-slice-constant", "a list stored for an instruction type that overrides SPL_DISCRIMINATOR_SLICE must live under SPL_DISCRIMINATOR and read back after init and update",
+            serde_json::json!({"observed": format!("{:?}", r.map(|(a, b, c)| (a.len(), b.len(), c.len()))), "type_field": tag_at(odd_off).map(|x| emit::hex(&x)), "bytes": emit::hex(&buf[..buf.len().min(64)])}).to_string());
+    }
+}
+
 pub fn run_c12(ctx: &Ctx) -> Report {
     let mut rep = Report::new("C12");
     rep.corr_module = "Resolution".into();
-    rep.expect_classes(&["init:ok", "init:err", "update:ok", "update:err", "reload:ok", "reload:err", "exact-size", "one-byte-less", "malformed", "prealloc:ok", "lists:>=255-configs"]);
+    rep.expect_classes(&["init:ok", "init:err", "update:ok", "update:err", "reload:ok", "reload:err", "exact-size", "one-byte-less", "malformed", "prealloc:ok", "lists:>=255-configs", "instructions:>128-in-one-account", "instruction:overridden-slice-constant"]);
     let mut rng = Rng::new(ctx.seed.wrapping_mul(229).wrapping_add(12));
     // exact size: succeeds; one byte less fails
     for n in (0..=8usize).chain([255usize, 256, 257, 300, 1880].into_iter()) {
@@ -1151,6 +1475,12 @@ pub fn run_c12(ctx: &Ctx) -> Report {
         if !r2.is_err() || small.iter().any(|&x| x != 0) {
             rep.violate("one-byte-less", "one byte less than the advertised size must fail (and leave the buffer untouched)", serde_json::json!({"n": n, "observed": format!("{:?}", r2)}).to_string());
         }
+    }
+    for _ in 0..ctx.scale(6, 40) {
+        many_instructions_scenario(&mut rep, &mut rng);
+    }
+    for _ in 0..ctx.scale(40, 400) {
+        odd_slice_list_scenario(&mut rep, &mut rng);
     }
     let n_coq = ctx.scale(500, 6000);
     let n_mon = ctx.scale(8000, 100_000);
